@@ -596,7 +596,7 @@ def run(ctx: Ctx):
                  gap=10, mab=1, kinds=["ok", "w0", "null"], skiplows=[False, True], minws=[0], gapsizes=[10],
                  withgap=False),
         ]
-        arm_scope = dict(armbins=8, armgaps=[0, 9, 10, 11], armmabs=[1, 2, 3])
+        arm_scope = dict(armbins=8, armgaps=[0, 9, 10], armmabs=[1, 2, 3])
     else:
         scopes = [
             dict(name="1 chromosome <= 5 bins, ok/zero-weight, every large-gap position (size min_gap-1 / min_gap)",
@@ -651,7 +651,7 @@ def run(ctx: Ctx):
     if "DesignNoStretch" not in rd.violated:
         raise MachineryError("the documented defect model (StretchEndpointsCoW) no longer breaks arm_endpoints")
     # direction 2
-    d2 = structured_inputs() + random_inputs(ctx, 60 if thorough else 14, 3 if thorough else 2)
+    d2 = structured_inputs() + random_inputs(ctx, 60 if thorough else 20, 3 if thorough else 2)
     # by_arm on the real-size tables too
     seen = set()
     for x in list(d2):
